@@ -2,13 +2,17 @@ import PrologVerif.Driver.Common
 import PrologVerif.Driver.C18
 import PrologVerif.Driver.C02
 import PrologVerif.Driver.C03
+import PrologVerif.Driver.C01
 open PrologVerif PrologVerif.Driver
 
 def handlers : List (String × Handler) :=
   [ ("c18.hist", C18.handler),
     ("c02.unify", C02.handler),
     ("c02.env", C02.envHandler),
-    ("c03.force", C03.handler) ]
+    ("c03.force", C03.handler),
+    ("c01.answers", C01.handler),
+    ("c03.answers", C01.handler),
+    ("c04.answers", C01.handler) ]
 
 partial def loop (h : IO.FS.Stream) (out : IO.FS.Stream) (f : Handler) : IO Unit := do
   let line ← h.getLine
